@@ -850,13 +850,33 @@ func runJoe(args []string) string {
 		t.fact("CALLS-BLOCKED-AFTER-SHUTDOWN")
 		t.mu.Unlock()
 	}
-	// Joe's goroutine must exit
+	// Joe's goroutine must exit: its last hook (loop.allClosed) must have been recorded — a Shutdown call that lost
+	// the race returns ErrProviderClosed at once, so the loop may still be on its way out when every call has returned;
+	// left alone it would record that hook into the next case's trace (the goroutine count alone does not tell:
+	// the runtime's own goroutines come and go)
 	deadline := time.Now().Add(joePatience)
+	for time.Now().Before(deadline) {
+		t.mu.Lock()
+		exited := false
+		for _, ev := range t.ev {
+			if ev == "lx" {
+				exited = true
+			}
+		}
+		t.mu.Unlock()
+		if exited {
+			break
+		}
+		time.Sleep(200 * time.Microsecond)
+	}
 	for runtime.NumGoroutine() > baseG && time.Now().Before(deadline) {
 		time.Sleep(200 * time.Microsecond)
 	}
 	t.mu.Lock()
 	defer t.mu.Unlock()
+	if !slicesContains(t.ev, "lx") {
+		t.fact("JOE-LOOP-NEVER-EXITED")
+	}
 	// of all the Shutdown calls exactly one closes `done` (and returns nil or its context's error): if every call
 	// returned ErrProviderClosed, somebody was told "already shut down" by a Joe nobody had shut down
 	nShut, nWon := 0, 0
@@ -908,4 +928,13 @@ func init() {
 	for _, id := range []string{"C03", "C04", "C06", "C07", "C17"} {
 		generators[id] = genJoe
 	}
+}
+
+func slicesContains(xs []string, x string) bool {
+	for _, y := range xs {
+		if y == x {
+			return true
+		}
+	}
+	return false
 }
